@@ -25,8 +25,13 @@ DEADLINE_AT = None      # wall-clock time after which a run stops exploring (set
 
 
 def expired():
+    """True once the run's deadline has passed, or this process has grown beyond 3 GB (a changed tree can make a
+    worker arbitrarily slow or hungry; exploration loops poll this and stop with a cap instead of hanging the run)."""
+    import resource
     import time as _t
-    return DEADLINE_AT is not None and _t.time() > DEADLINE_AT
+    if DEADLINE_AT is not None and _t.time() > DEADLINE_AT:
+        return True
+    return DEADLINE_AT is not None and resource.getrusage(resource.RUSAGE_SELF).ru_maxrss > 3_000_000
 
 
 class HarnessError(Exception):
